@@ -78,7 +78,7 @@ def build_emit(args):
     text = "EventType " + " ".join(event) + "\n" + goofitio.render_tree(line) + "  0 1.0 0.1  0 0.5 0.1\n" \
         + "\n".join(goofitio.support_lines([line], rng)) + "\n"
     cls = GooFitChain if lang == "cpp" else GooFitPyChain
-    obs = {"raised": "-", "sfs": [], "lss": [], "n": -1}
+    obs = {"raised": "-", "sfs": [], "lss": [], "n": -1, "groups": []}
     code = ""
     try:
         lines, states = cls.read_ampgen(text=text)
@@ -87,6 +87,14 @@ def build_emit(args):
         code = lines[0].to_goofit(states[1:])
         sfs, lss, n = goofitio.read_amplitude(code, lang)
         obs.update(sfs=sfs, lss=lss, n=n)
+        # group i of the spin factors and group i of the lineshapes are what GooFit combines for permutation i
+        nres = len(goofitio.resonances(line))
+        k = max(n, 1)
+        if n > 0 and len(sfs) % n == 0 and len(lss) == n * nres:
+            per = len(sfs) // n
+            obs["groups"] = [{"sfs": sfs[i * per:(i + 1) * per], "lss": lss[i * nres:(i + 1) * nres]} for i in range(n)]
+        else:
+            obs["groups"] = [{"sfs": sfs, "lss": lss}]
     except Machinery:
         raise
     except Exception as e:  # noqa: BLE001
